@@ -7,7 +7,7 @@
   has a votes entry and holds fewer seats than its cap (divisors are positive); `openSeats = n_seats - Σ prev`.
   `haSeats c` are the seats awarded individually to `c`, a `Tie` entry carries `tieSeats`.
 -/
-import VotelibProofs.Lemmas.HAStep
+import VotelibProofs.Lemmas.HAStrict
 import VotelibModel.Gen.Divisor
 import Mathlib.Tactic.Ring
 import Mathlib.Tactic.NormNum
@@ -218,6 +218,34 @@ theorem modified_first_ok (f : Nat → Rat) (a : Rat) (hf : (∀ k, 0 < f k) ∧
 theorem cfgOK_of_divisor (cfg : HACfg) (hd : (∀ k, 0 < cfg.div k) ∧ StrictMono cfg.div)
     (hv : ∀ p ∈ cfg.votes, 0 ≤ p.2) (hn : (keys cfg.votes).Nodup) : CfgOK cfg :=
   ⟨hd.1, fun k => le_of_lt (hd.2 (Nat.lt_succ_self k)), hv, hn⟩
+
+/-- **Never resolved silently.**  With a strictly increasing divisor sequence and positive votes, every claim
+    that is still waiting at the end is *strictly* weaker than every seat awarded individually: a claim equal to a
+    seated one can only end up inside the reported `Tie`, never be passed over. -/
+theorem ha_strict_separation (cfg : HACfg) (hd : (∀ k, 0 < cfg.div k) ∧ StrictMono cfg.div)
+    (hv : ∀ p ∈ cfg.votes, 0 < p.2) (hn : (keys cfg.votes).Nodup)
+    (c' : Cand) (he : Elig0 cfg c') (hroom : cfg.prevOf c' + haSeats cfg c' < cfg.capOf c')
+    (c : Cand) (k : Nat) (hk1 : cfg.prevOf c ≤ k) (hk2 : k < cfg.prevOf c + haSeats cfg c) :
+    cfg.quot c' (cfg.prevOf c' + haSeats cfg c') < cfg.quot c k := by
+  have h : CfgOK cfg := cfgOK_of_divisor cfg hd (fun p hp => le_of_lt (hv p hp)) hn
+  have hi := haRun_inv cfg h
+  have hs := haRun_strict cfg h (strictQ_of cfg hd.1 hd.2 hn hv)
+  rw [← finalTot_eq cfg h] at hroom hk2 ⊢
+  obtain ⟨p, hp, hpk⟩ := List.mem_map.mp (hi.pool_all c' he hroom)
+  have := hs c k hk1 hk2 p hp
+  rw [hi.pool_q p hp, hpk] at this
+  exact this
+
+/-- Witness for the recorded finding `C01-nonstrict-first-coef`: with `modified_first_coef d_hondt 2` the divisor
+    sequence 2, 2, 3, … is not strictly increasing; party 1 is left waiting with a quotient equal to that of a seat
+    awarded to party 2, and no tie is reported — the strictness hypothesis of `ha_strict_separation` is necessary. -/
+def exNonStrict : HACfg :=
+  { div := modified_first_coef d_hondt 2, votes := [(1, 2), (2, 5)], n := 6, prev := [], caps := [] }
+
+theorem ha_silent_tie_witness :
+    (haRun exNonStrict).tie = none ∧ haSeats exNonStrict 1 = 1 ∧ haSeats exNonStrict 2 = 5 ∧
+    exNonStrict.quot 1 (haSeats exNonStrict 1) = exNonStrict.quot 2 4 := by
+  decide +kernel
 
 /-! ### non-vacuity: a concrete configuration with a binding cap, previous gains and a three-way tie -/
 
